@@ -569,6 +569,9 @@ func (s *Sim) step(t *Task, site string, kind uint8, blockedNow bool) {
 	if t.opYields > s.Stats.MaxOpYields {
 		s.Stats.MaxOpYields = t.opYields
 	}
+	if clockOn {
+		advanceClock(10 * time.Microsecond) // simulated time passes at every yield
+	}
 	prevSite := t.curSite
 	t.curSite = site
 	if kind == EvYield {
